@@ -274,7 +274,7 @@ func (R *Repository) updateCRL(identifier string) error {
 	if entry != nil {
 		R.logger.Debug("updating crl from " + entry.CRLLoader.GetDescription())
 		if R.isEntryLoaded(entry) == false {
-			return R.loadCRL(entry, entry.Chains)
+			return R.loadInBackground(entry)
 		} else {
 			return R.updateCrlEntry(entry, nil)
 		}
@@ -516,6 +516,17 @@ func (R *Repository) loadActively(entry *Entry, chains *core.CertificateChains, 
 			return err
 		}
 		return R.loadCRL(entry, chains)
+	}
+	return nil
+}
+
+// loadInBackground performs the first load of an entry which was added without loading it (background fetch mode)
+func (R *Repository) loadInBackground(entry *Entry) error {
+	entry.entryLock.Lock()
+	defer entry.entryLock.Unlock()
+	//check again after getting write lock if entry is still not loaded
+	if entry.Loaded == false {
+		return R.loadCRL(entry, entry.Chains)
 	}
 	return nil
 }
